@@ -19,11 +19,11 @@ DOCUMENTED_SUFFIX = {"csv", "json", "pickle"}     # formats whose docstring prom
 
 class RoundTrip(Harness):
     prop = "C12"; opname = "file_roundtrip"
-    def __init__(self, cls, fmt, maxn):
-        self.cls = cls; self.fmt = fmt; self.maxn = maxn
-        self.name = f"C12.{cls}.{fmt}.n{maxn}"
+    def __init__(self, cls, fmt, maxn, extended=False):
+        self.cls = cls; self.fmt = fmt; self.maxn = maxn; self.extended = extended
+        self.name = f"C12.{cls}.{fmt}{'.dates' if extended else ''}.n{maxn}"
         self.bounds = {"rows / items": f"1..{maxn}", "suffix": ["", ".gz", ".bz2", ".xz"], "options": "sep in {',', ';', tab}, header, encoding in {utf-8, latin-1}",
-                       "columns": "int64, float64 (with NaN), string" if cls == "DataFrame" else
+                       "columns": ("date, datetime64[us], timedelta64[us] (with NaT), bool" if extended else "int64, float64 (with NaN), string" + (", date, datetime64[us], timedelta64[us] (with NaT), bool" if fmt in ("pickle", "npz") else "")) if cls == "DataFrame" else
                                   "text values from a pool with CR LF, LF, quotes, delimiters, tab, non-ASCII (a lone CR is not representable by Python 3.12's csv writer, which leaves it unquoted: outside the claim)"}
         self.symbolic = ["cell values (opaque to the serializer models)"]; self.choice_dims = ["suffix", "sep", "header", "encoding"]
         self.goals = ["util.py:xopen", f"{'data_frame' if cls == 'DataFrame' else 'list_of_dicts'}.py:{cls}.write_{fmt}",
@@ -41,6 +41,10 @@ class RoundTrip(Harness):
             if enc != "utf-8": w.append(["encoding", enc]); r.append(["encoding", enc])
         if self.cls == "DataFrame":
             cols = {"a": mk_col("i", n, "a"), "f": mk_col("f", n, "f"), "s": mk_col("T", n, "s")}
+            if self.fmt in ("pickle", "npz") or self.extended:
+                # the binary formats keep every dtype: dates, datetimes, timedeltas (with NaT) and booleans too
+                if self.extended: cols = {}
+                cols.update({"d": mk_col("D", n, "d"), "t": mk_col("us", n, "t"), "w": mk_col("td", n, "w"), "b": mk_col("b", n, "b")})
             if dict((k, v) for k, v in w).get("encoding") == "latin-1":
                 for c in cols["s"].cells:
                     for ch in list(c.ch) + [c.sfx]: ctx.assume(z3.ULE(ch, 0xFF), note="data representable in the chosen encoding (latin-1: code points <= U+00FF)")
@@ -60,6 +64,12 @@ class RoundTrip(Harness):
         # quotes, newlines inside strings, Unicode, missing first values, numeric corners)
         obj = inp["obj"]
         if not isinstance(obj, Frame): return []
+        if "s" not in obj.cols:
+            W_ = obj.cols["w"].cells; B = obj.cols["b"].cells
+            return [("a missing timedelta beside a present one", z3.And(z3.Or([c == symx.INT64_MIN for c in W_]), z3.Or([c != symx.INT64_MIN for c in W_]))),
+                    ("all timedeltas missing", z3.And([c == symx.INT64_MIN for c in W_])),
+                    ("a negative timedelta", z3.Or([z3.And(c != symx.INT64_MIN, c < 0) for c in W_])),
+                    ("all booleans False", z3.And([z3.Not(c) for c in B]))]
         sep = dict((k, v) for k, v in inp["wopts"]).get("sep", ",")
         pr = []
         S = obj.cols["s"].cells; F = obj.cols["f"].cells; A = obj.cols["a"].cells
@@ -107,7 +117,7 @@ class RoundTrip(Harness):
                 cl.append(("same number of columns", T(isinstance(back, Frame) and len(back.names) == len(obj.names))))
                 if isinstance(back, Frame) and len(back.names) == len(obj.names):
                     back = Frame(dict(zip(obj.names, back.cols.values())))
-            dk = ("b", "i", "f", "T") if self.fmt in ("pickle", "npz", "parquet") else ()
+            dk = ("b", "i", "f", "T", "D", "us", "td") if self.fmt in ("pickle", "npz", "parquet") else ()
             cl += same_frame_clauses(obj, back, "read back", dk, exact_floats=self.fmt not in ("csv", "json"))
         else:
             cl.append(("same number of items", T(isinstance(back, LoD) and len(back.items) == len(obj.items))))
@@ -122,5 +132,6 @@ class RoundTrip(Harness):
 def harnesses(tier):
     n = 1 if tier == "quick" else 2
     hs = [RoundTrip("DataFrame", f, 2 if f in ("pickle", "npz", "parquet", "csv") else n) for f in ("pickle", "npz", "parquet", "csv", "json")]
+    hs.append(RoundTrip("DataFrame", "parquet", 2, extended=True))
     hs += [RoundTrip("ListOfDicts", f, n) for f in ("pickle", "json", "csv")]
     return hs
